@@ -174,10 +174,12 @@ def show(o):
     return "%s%s" % ("accept " if "ok" in o else "", d)
 
 
-def replay(ctx, pid, obj, oracle=None):
+def replay(ctx, pid, obj, oracle=None, outs=None):
     """re-execute a stored scenario (one verification, or a sequence over one loaded object) against
     /repo's current code and the model.  [oracle(r, scen, outs, wd)] -> description of a property violation
-    on the implementation's own observables, or None."""
+    on the implementation's own observables, or None.  [outs]: optional list receiving the implementation's
+    outcome of the first run."""
+    outs_sink = outs
     r = obj["replay"]
     req = r["request"]
     wd = os.path.join(ctx.work, "sc")
@@ -185,47 +187,50 @@ def replay(ctx, pid, obj, oracle=None):
     scen = {"root": req["root"], "dir": req["dir"], "keys": req["keys"], "params": req["params"],
             "now_us": req["now_us"], "tags": r.get("tags", []), "logpath": os.path.join(wd, "insp.log"),
             "layouts": r.get("layouts") or {}, "params_seq": req.get("params_seq"), "scrub": req.get("scrub", False)}
-    # inspection commands mention the log path of the original run: point them at the new one
+    # current scenarios name the log relative to the working directory.  Older replay files carry an absolute path
+    # inside the SIGNED commands: it cannot be rewritten (the real signatures would break); the original directory
+    # is re-created instead
     import re as _re
-    # (current scenarios name the log relative to the working directory; older replay files carry an absolute path
-    # inside the signed commands: that directory is re-created so that the signed bytes stay what they were)
-    m = _re.search(r">> (/\S+insp\.log)", json.dumps(req))
+    import shutil as _sh
     made = None
+    m = _re.search(r">> (/\S+insp\.log)", json.dumps(req))
     if m:
         old_log = m.group(1)
-        try:
-            if not os.path.exists(os.path.dirname(old_log)):
-                os.makedirs(os.path.dirname(old_log))
-                made = os.path.dirname(old_log)
-            scen["logpath"] = old_log
-        except OSError:
-            scen = json.loads(json.dumps(scen).replace(old_log, scen["logpath"]))
-            req = json.loads(json.dumps(req).replace(old_log, scen["logpath"]))
-            scen["logpath"] = os.path.join(wd, "insp.log")
-    outs, exec_table = vscen.run_impl(scen, wd, params_seq=scen["params_seq"], scrub=bool(scen["scrub"]))
-    req["exec"] = exec_table
-    if scen["params_seq"] is not None:
-        req["exec_seq"] = [o.get("exec", []) for o in outs]
-    model = core.Model()
-    a = model.batch([("verify", req)])[0]
-    d = vscen.compare_all(outs, a)
-    mos = a["seq"] if isinstance(a, dict) and "seq" in a else [a]
-    for k, o in enumerate(outs):
-        print("impl  run %d:" % k, show(o), "" if not o.get("changed") else "(caller's object changed)")
-    for k, mo in enumerate(mos):
-        print("model run %d:" % k, show(vscen.norm_model_outcome(mo)) if isinstance(mo, dict) else mo)
-    bad = False
-    if d and d != "unmodelled":
-        print("  -> model and implementation disagree: " + d)
-        bad = True
-    if oracle:
-        od = oracle(r, scen, outs, wd)
-        if od:
-            print("  -> property oracle: " + od)
+        scen["logpath"] = old_log
+        d = os.path.dirname(old_log)
+        top = d
+        while top and not os.path.exists(os.path.dirname(top)):
+            top = os.path.dirname(top)
+        if not os.path.exists(d):
+            os.makedirs(d)
+            made = top
+    try:
+        outs, exec_table = vscen.run_impl(scen, wd, params_seq=scen["params_seq"], scrub=bool(scen["scrub"]))
+        req["exec"] = exec_table
+        if scen["params_seq"] is not None:
+            req["exec_seq"] = [o.get("exec", []) for o in outs]
+        model = core.Model()
+        a = model.batch([("verify", req)])[0]
+        d = vscen.compare_all(outs, a)
+        if outs_sink is not None:
+            outs_sink.append(outs[0])
+        mos = a["seq"] if isinstance(a, dict) and "seq" in a else [a]
+        for k, o in enumerate(outs):
+            print("impl  run %d:" % k, show(o), "" if not o.get("changed") else "(caller's object changed)")
+        for k, mo in enumerate(mos):
+            print("model run %d:" % k, show(vscen.norm_model_outcome(mo)) if isinstance(mo, dict) else mo)
+        bad = False
+        if d and d != "unmodelled":
+            print("  -> model and implementation disagree: " + d)
             bad = True
-    if made:
-        import shutil
-        shutil.rmtree(made, ignore_errors=True)
+        if oracle:
+            od = oracle(r, scen, outs, wd)
+            if od:
+                print("  -> property oracle: " + od)
+                bad = True
+    finally:
+        if made and os.path.realpath(made).startswith(os.path.realpath(core.ROOT) + os.sep):
+            _sh.rmtree(made, ignore_errors=True)
     if bad:
         print("VIOLATION property=%s replay=%s" % (pid, obj.get("rerun", "").split()[-1]))
         return 1
